@@ -72,6 +72,9 @@ class Work:
             sim.spawn(loop_main, "loop", "work")
 
             def foreign():
+                if sc.get("foreign_sets_loop"):
+                    import asyncio
+                    asyncio.set_event_loop(loop)  # installed as this thread's current loop, but run by the other thread
                 sim.sleep(0.001)
                 for op in sc["ops"]:
                     if op[2]:
@@ -119,7 +122,7 @@ class Prop:
             for op in ops:
                 t += op[2]
                 op[2] = t + 1
-        return {"mode": mode, "scheduler": "plain" if mode == "loop_thread" and rng.random() < 0.6 else "threadsafe", "ops": ops,
+        return {"mode": mode, "foreign_sets_loop": rng.random() < 0.5, "scheduler": "plain" if mode == "loop_thread" and rng.random() < 0.6 else "threadsafe", "ops": ops,
                 "sched": th.gen_sched(rng, ks=(0, 1, 2, 3, 3), spurious_p=0.3)}
 
     def execute(self, sc):
